@@ -6,6 +6,7 @@ import MwVerif.Driver.C14
 import MwVerif.Driver.C13
 import MwVerif.Driver.C10
 import MwVerif.Driver.C20
+import MwVerif.Driver.Templ
 
 open MwVerif.Driver
 
@@ -14,6 +15,7 @@ def main (args : List String) : IO UInt32 := do
   let stdout ← IO.getStdout
   match args with
   | ["c15"] => loop stdin stdout C15.step; return 0
+  | ["templ"] => loop stdin stdout Templ.step; return 0
   | ["c20"] => loop stdin stdout C20.step; return 0
   | ["c10"] => loop stdin stdout C10.step; return 0
   | ["c13"] => loop stdin stdout C13.step; return 0
